@@ -95,6 +95,13 @@ Definition cd_prepare (g : graph) (bases : list attr) : cres attr :=
   | _ => COk g ANone
   end.
 
+(* does __prepare__ put a merged function into the namespace for this name? *)
+Definition prepared_b (bases : list attr) : bool :=
+  match filter is_ov bases with
+  | AOvld _ _ :: rest => negb (is_nil (marked_nodes rest))
+  | _ => false
+  end.
+
 (* one definition in the body: the decorator (if any), then ovld_cls_dict.__setitem__ *)
 Definition cd_setitem (g : graph) (bases : list attr) (cur : attr) (d : def) : cres attr :=
   let sig := d_sig d in
@@ -142,7 +149,36 @@ Fixpoint cd_body (g : graph) (bases : list attr) (cur : attr) (body : list def) 
 Definition cd_name (g : graph) (bases : list attr) (body : list def) : cres attr :=
   cbind (cd_prepare g bases) (fun g1 cur0 => cd_body g1 bases cur0 body).
 
+(* a class WITHOUT the metaclass (plain mixin class): the body's namespace is an ordinary dict; only the decorators act *)
+Definition pd_setitem (g : graph) (cur : attr) (d : def) : cres attr :=
+  let sig := d_sig d in
+  let l := d_label d in
+  match d_kind d with
+  | DPlain => COk g (APlain sig l)
+  | DOvld =>
+      match cur with
+      | ANone => cbind (cd_fresh g sig l) (fun g1 n => COk g1 (AOvld n false))
+      | APlain _ _ => CFail ENotOvld
+      | AOvld n f => cbind (cd_register g n sig l) (fun g1 _ => COk g1 (AOvld n f))
+      end
+  | DExt => cbind (cd_fresh g sig l) (fun g1 N => COk g1 (AOvld N true))
+  end.
+
+Fixpoint pd_body (g : graph) (cur : attr) (body : list def) : cres attr :=
+  match body with
+  | [] => COk g cur
+  | d :: r => cbind (pd_setitem g cur d) (fun g' cur' => pd_body g' cur' r)
+  end.
+
+Definition pd_name (g : graph) (body : list def) : cres attr := pd_body g ANone body.
+
 (* ---------- decidable domains used by the theorems of Props/C17.v ---------- *)
+Definition attr_valid (g : graph) (a : attr) : bool :=
+  match a with AOvld m _ => Nat.ltb m (length g) | _ => true end.
+Definition attrs_valid (g : graph) (bases : list attr) : bool := forallb (attr_valid g) bases.
+Definition present (a : attr) : bool := match a with ANone => false | _ => true end.
+Definition regs_of (body : list def) : list (nat * nat) := map (fun d => (d_sig d, d_label d)) body.
+
 Definition is_ext (d : def) : bool := match d_kind d with DExt => true | _ => false end.
 Definition is_dovld (d : def) : bool := match d_kind d with DOvld => true | _ => false end.
 Definition is_dplain (d : def) : bool := match d_kind d with DPlain => true | _ => false end.
